@@ -2,7 +2,7 @@ import importlib.util, os
 _p = os.path.join(os.path.dirname(os.path.dirname(os.path.abspath(__file__))), "C07", "plan.py")
 _s = importlib.util.spec_from_file_location("plan_C07_for_C11", _p); _m = importlib.util.module_from_spec(_s); _s.loader.exec_module(_m)
 PLAN = dict(
-    id="C11", level="other", explanation='Static directives only: for every set of 3 directives over the target catalogue {a, ab, abc, b, "", default} x 6 levels and every query over {a, ab, abc, abcd, b, c} x 5 levels, Targets::would_enable equals the statement\'s rule computed by an independent oracle (longest matching target prefix decides; a later directive with the same target replaces the earlier; no match = disabled); the DirectiveSet stays strictly sorted by the real Ord (hence key-unique), equal keys are replaced, max_level bounds every directive; Ord for StaticDirective is antisymmetric, transitive, Equal iff same target and fields, longer target first, more field constraints first. Bounded, stated.',
+    id="C11", api_files=['tracing-subscriber/src/filter/directive.rs', 'tracing-subscriber/src/filter/targets.rs'], level="other", explanation='Static directives only: for every set of 3 directives over the target catalogue {a, ab, abc, b, "", default} x 6 levels and every query over {a, ab, abc, abcd, b, c} x 5 levels, Targets::would_enable equals the statement\'s rule computed by an independent oracle (longest matching target prefix decides; a later directive with the same target replaces the earlier; no match = disabled); the DirectiveSet stays strictly sorted by the real Ord (hence key-unique), equal keys are replaced, max_level bounds every directive; Ord for StaticDirective is antisymmetric, transitive, Equal iff same target and fields, longer target first, more field constraints first. Bounded, stated.',
     functions_under_contract=['tracing-subscriber/src/filter/directive.rs: Ord/PartialOrd for StaticDirective, DirectiveSet::add, DirectiveSet::<StaticDirective>::{enabled,target_enabled,directives_for_target}, StaticDirective::cares_about_target', 'filter/targets.rs: Targets::{with_target,with_default,would_enable}'],
     trusted_base=["Kani 0.68 / CBMC 6.11 / CaDiCaL; Kani's std build (nightly-2026-08-21), not the repo toolchain's", 'core::fmt::Formatter::pad stubbed to Ok(()) with -Z stubbing (panic-message formatting on infeasible error branches; no harness that uses it reads formatted text)', 'cfg(kani) thread_local! shim and once_cell::sync::Lazy contract stub (see overlay_additions)', 'built with the default `smallvec` feature (FilterVec = SmallVec<[_; 8]>)'],
     assumptions=['the catalogue of targets/queries is a finite sample of prefix structures (equal, proper prefix, disjoint, empty, default)'],
